@@ -35,6 +35,7 @@ Emit == fn # "init" =>
                    bytes |-> IF fn = "decode" THEN DecodeBytes(s, plus) ELSE <<>>,
                    closed |-> Closed(s),
                    valid |-> IF fn = "parse_host" THEN ValidHostForm(s) ELSE FALSE,
+                   colon |-> IF fn = "parse_host" THEN HasColon(s) ELSE FALSE,
                    esc |-> IF fn \in {"encode_check_escaped", "encode_value_check_escaped"}
                            THEN FullyEscaped(s, AllowedOf(fn)) ELSE FALSE]))
 ===========================================================================
